@@ -146,9 +146,16 @@ fn run_case<'a>(ctx: &'a Ctx, case: u64, acc: &'a mut Acc) -> CaseFut<'a> {
                 }
             }
         }
+        // ... or is still an admin when the victim learns the room, and is disabled by the change the victim has not seen
+        let mut admin_until_v1 = false;
+        if admin_window.is_none() && rng.gen_bool(0.25) {
+            t += 50;
+            clock_set(t);
+            admin_until_v1 = a.edit_room(&mut room, &RoomEdit::Admin(m.vkey.clone(), true)).await.is_ok();
+        }
         // ... or a user admin of the first group for a while
         let mut user_admin_window: Option<(i64, i64)> = None;
-        if admin_window.is_none() && rng.gen_bool(0.4) {
+        if admin_window.is_none() && !admin_until_v1 && rng.gen_bool(0.4) {
             t += 50;
             clock_set(t);
             let from = t;
@@ -171,7 +178,8 @@ fn run_case<'a>(ctx: &'a Ctx, case: u64, acc: &'a mut Acc) -> CaseFut<'a> {
         // honest change v1 (victim not informed)
         t += if rng.gen_bool(0.5) { 50 } else { DAY };
         clock_set(t);
-        let honest = match rng.gen_range(0..3) {
+        let honest = match if admin_until_v1 { 3 } else { rng.gen_range(0..3) } {
+            3 => RoomEdit::Admin(m.vkey.clone(), false),
             0 => RoomEdit::User(0, other.vkey.clone(), true),
             1 => RoomEdit::Right(0, mk_right("Pet", true, false)),
             _ => RoomEdit::User(0, m.vkey.clone(), false),
@@ -192,7 +200,9 @@ fn run_case<'a>(ctx: &'a Ctx, case: u64, acc: &'a mut Acc) -> CaseFut<'a> {
         clock_set(t);
 
         // candidate
-        let kind = if admin_window.is_some() && rng.gen_bool(0.5) {
+        let kind = if admin_until_v1 {
+            14
+        } else if admin_window.is_some() && rng.gen_bool(0.5) {
             12
         } else if user_admin_window.is_some() && rng.gen_bool(0.5) {
             13
@@ -297,6 +307,56 @@ fn run_case<'a>(ctx: &'a Ctx, case: u64, acc: &'a mut Acc) -> CaseFut<'a> {
                 cand.admin_edges.push(signed_edge(room.id, ROOM_ENT_SHORT, "32", n.id, edge_date, &m));
                 cand.admin_nodes.push(UserNode { node: n });
                 "self-signed-admin-entry-by-a-former-admin-created-while-it-was-admin"
+            }
+            14 => {
+                // the candidate carries the entry that disables the adversary as admin (unseen by the victim) and a new
+                // group that the adversary authors after that date, granting every right to itself
+                let template = cand.auth_nodes[0].clone();
+                let mut g = template.clone();
+                let mut gid = [0u8; 16];
+                rng.fill(&mut gid);
+                g.node.id = gid;
+                g.node.cdate = t;
+                g.node.mdate = t;
+                g.node.sign(&m.signing).unwrap();
+                g.last_modified = t;
+                g.need_update = true;
+                g.user_admin_edges.clear();
+                g.user_admin_nodes.clear();
+                g.user_edges.clear();
+                g.user_nodes.clear();
+                g.right_edges.clear();
+                g.right_nodes.clear();
+                if let Some(rn) = template.right_nodes.first() {
+                    let mut r = rn.clone();
+                    let mut rid = [0u8; 16];
+                    rng.fill(&mut rid);
+                    r.node.id = rid;
+                    r.node.cdate = t;
+                    r.node.mdate = t;
+                    // same fields as the template, for every entity, own and all rows
+                    if let Some(j) = &r.node._json {
+                        if let Ok(Value::Object(mut o)) = serde_json::from_str::<Value>(j) {
+                            for (_, v) in o.iter_mut() {
+                                if v.is_string() {
+                                    *v = json!("*");
+                                } else if v.is_boolean() {
+                                    *v = json!(true);
+                                }
+                            }
+                            r.node._json = Some(Value::Object(o).to_string());
+                        }
+                    }
+                    r.node.sign(&m.signing).unwrap();
+                    g.right_edges.push(signed_edge(gid, AUTH_ENT_SHORT, "33", rid, t, &m));
+                    g.right_nodes.push(r);
+                }
+                let un = user_node(&m.vkey, t, &m, &mut rng);
+                g.user_edges.push(signed_edge(gid, AUTH_ENT_SHORT, "34", un.id, t, &m));
+                g.user_nodes.push(UserNode { node: un });
+                cand.auth_edges.push(signed_edge(room.id, ROOM_ENT_SHORT, "33", gid, t, &m));
+                cand.auth_nodes.push(g);
+                "new-group-authored-by-an-admin-whose-disabling-entry-is-in-the-same-definition"
             }
             13 => {
                 // a former user admin of the group adds a user (a key that is in no group) with an entry dated now
